@@ -90,14 +90,28 @@ def run(ck):
             ck.case(fp=('pair', q, fam, str(pr)), nontrivial=fam == 'cross')
             known = [(t1, t2, a.point(t1))] if fam == 'cross' else []
             pair_case(ck, '%s Q=%d' % (fam, q), a, b, known, 1e-5, {'pr': pr, 'q': q})
+            if fam == 'cross' and q == 3 and not isinstance(a, sp.Line):
+                # touching / near-miss configurations: nothing is known about the count, whatever is returned must be sound
+                for name, x, ln in cm.touching_from(a, b, t1, t2):
+                    ck.case(fp=('touch', name, str(pr)), nontrivial=True)
+                    pair_case(ck, 'touching: line ' + name, x, ln, None, 1e-5, {'pr': pr, 'q': q, 'touch': name})
         ck.sample('%s/Q=%d' % (fam, q), cases[0])
-    for name, a, b, known in cm.arc_families():
+    for name, a, b, known in cm.arc_families() + cm.ellipse_families():
         ck.case(fp=('arc', name, repr(a), repr(b)), nontrivial=True)
         pair_case(ck, name, a, b, known, 1e-3, {'family': name, 'a': repr(a), 'b': repr(b)})
     # Path.intersect coherence
     for name, p1, p2, exp in cm.path_families():
         ck.case(fp=('path', name), nontrivial=True)
-        for A, B in ((p1, p2), (p2, p1)):
+        import copy
+        q1 = sp.Path(*[copy.deepcopy(s_) for s_ in p1])
+        q2 = sp.Path(*[copy.deepcopy(s_) for s_ in p2])
+        q1.intersect(q2)
+        # a history: query, move an end point through the Path interface (the crossings stay where they are), query again
+        if isinstance(q1[-1], sp.Line):
+            q1.end = q1.end + (q1[-1].end - q1[-1].start) * 0.5
+        if isinstance(q2[0], sp.Line):
+            q2.start = q2.start - (q2[0].end - q2[0].start) * 0.5
+        for A, B in ((p1, p2), (p2, p1), (q1, q2), (q2, q1)):
             try:
                 res = A.intersect(B)
             except Exception as e:      # noqa
